@@ -431,6 +431,7 @@ def bytes_len(v):
 # ----------------------------------------------------------------------------------------------
 # definitional axioms of spec-level predicates (added to every obligation that mentions them)
 DEFN_AXIOMS = {}  # decl name -> [axiom]
+VIEW_PREDS = {}  # view predicate name -> (dict value, witness function)
 _view_memo = {}
 
 
@@ -449,6 +450,7 @@ def interval_view(d, x):
                         patterns=[z3.MultiPattern(d.dom[kk], V(xx))])
         DEFN_AXIOMS[V.name()] = [ax1, ax2]
         _view_memo[key] = (V, d)  # keep d alive so ids stay unique
+        VIEW_PREDS[V.name()] = (d, w)
     return _view_memo[key][0](x)
 
 
@@ -473,3 +475,39 @@ def axioms_for(formulas):
         elif z3.is_quantifier(e):
             stack.append(e.body())
     return out
+
+
+def _store_indices(arr):
+    out = []
+    while z3.is_app(arr) and arr.decl().kind() == z3.Z3_OP_STORE:
+        out.append(arr.arg(1))
+        arr = arr.arg(0)
+    return out
+
+
+def view_hints(hyps, goal):
+    """Ground witness candidates for a goal `View_d(t)`: the witnesses other views assign to t and the
+    indices at which d was updated.  Only ground terms are added (sound); they feed E-matching of the
+    view axioms, which otherwise depends on the solver's luck."""
+    if not (z3.is_app(goal) and goal.decl().name() in VIEW_PREDS):
+        return []
+    d, w = VIEW_PREDS[goal.decl().name()]
+    t = goal.arg(0)
+    cands = list(_store_indices(d.dom)) + list(_store_indices(d.val))
+    names = set()
+    stack, seen = list(hyps), set()
+    while stack:
+        e = stack.pop()
+        if e.get_id() in seen:
+            continue
+        seen.add(e.get_id())
+        if z3.is_quantifier(e):
+            stack.append(e.body())
+        elif z3.is_app(e):
+            if e.decl().name() in VIEW_PREDS:
+                names.add(e.decl().name())
+            stack.extend(e.children())
+    for nm in names:
+        if nm != goal.decl().name():
+            cands.append(VIEW_PREDS[nm][1](t))
+    return [d.dom[c] for c in cands]
